@@ -3,4 +3,5 @@ let () =
   | [| _; "c16" |] -> Drv_c16.run ()
   | [| _; "c14" |] -> Drv_c14.run ()
   | [| _; "c18" |] -> Drv_c18.run ()
+  | [| _; "c19" |] -> Drv_c19.run ()
   | _ -> prerr_endline "usage: model_driver <sub>"; exit 2
